@@ -628,12 +628,12 @@ impl World for GovWorld {
             5,                            // 2 cancel
             8,                            // 3 withdraw
             10,                           // 4 advance
-            4,                            // 5 cfg
+            10,                           // 5 cfg
             4,                            // 6 setEnergy
             3,                            // 7 setTotal
-            3,                            // 8 claim
+            5,                            // 8 claim
             5,                            // 9 queries
-            4,                            // 10 malformed
+            6,                            // 10 malformed
         ]);
         match k {
             0 => {
